@@ -665,13 +665,18 @@ func (g *G) Inbound(label string, o InboundOpts) Inbound {
 			panic(err)
 		}
 		if has(o.Break, "M2") {
-			switch g.Int(label+"/blen", 0, 3) {
+			switch g.Int(label+"/blen", 0, 5) {
 			case 0:
 				body = body[:131]
 			case 1:
 				body = append(body, 0)
 			case 2:
 				body = nil
+			case 3:
+				// a well-formed burn message followed by whole 32-byte words, or twice over
+				body = append(body, make([]byte, Pick(g, label+"/bwords", []int{32, 64, 96, 132, 256, 1024}))...)
+			case 4:
+				body = append(body, g.Bytes(label+"/btail", g.Int(label+"/btl", 2, 70))...)
 			default:
 				body = body[:g.Int(label+"/bl", 1, 130)]
 			}
